@@ -138,6 +138,37 @@ class C04(Prop):
             acc.violation("nondeterministic", f"two calls differ ({tag})", {"p": hexstr[:200], "r1": r1[-8:], "r2": r2[-8:]})
         for mech, detail in self.rec.drain():
             acc.violation(mech, f"postcondition failed ({tag})", detail)
+        self.ncalls = getattr(self, "ncalls", 0) + 1
+        if self.ncalls % 8 == 0 and isinstance(r1, str):
+            # the same string handed over in the other ways Python allows: by keyword, through functools.partial, as an instance of a
+            # str subclass (a str whose str() shows something else, a member of a str-valued Enum)
+            import enum
+            import functools
+
+            class Shown(str):
+                def __str__(self):
+                    return "<frame>"
+
+                __format__ = lambda self, spec: "<frame>"
+
+            forms = {
+                "keyword": lambda: sign(hex_packet=hexstr),
+                "partial-keyword": lambda: functools.partial(sign, hex_packet=hexstr)(),
+                "str-subclass": lambda: sign(Shown(hexstr)),
+                "str-enum-member": lambda: sign(enum.Enum("Frame", {"LOGIN": hexstr}, type=str).LOGIN),
+            }
+            for form, fn in forms.items():
+                acc.ev()
+                acc.count(f"call_form_{form}")
+                try:
+                    rf = fn()
+                except Exception as exc:
+                    acc.violation(f"valid-hex-raised:{form}", f"{type(exc).__name__}: {exc} when the valid hex string is passed as {form} ({tag})", {"p": hexstr[:200]})
+                    continue
+                if not isinstance(rf, str) or str.__str__(rf) != str.__str__(r1):
+                    acc.violation(f"result-depends-on-call-form:{form}", f"passed as {form} the result is {str(rf)[:60]!r}..., passed plainly {r1[:60]!r}... ({tag})",
+                                  {"p": hexstr[:200], "form": form})
+            self.rec.drain()
         # the same bytes in the other spellings, right after: the result may not depend on what was signed before
         for other in (hexstr.upper(), hexstr.lower(), hexstr.swapcase()):
             if other == hexstr:
